@@ -120,8 +120,11 @@ def bfs(src, dst):
     return None
 
 
-def _check_transition(R, old, new, w):
-    exp_hist = list(old.history()) + [new.state_id()]
+def _check_transition(R, old, new, w, old_hist_before=None):
+    if old_hist_before is not None and list(old.history()) != list(old_hist_before):
+        R.add([K.V("transition:mutates-previous-state", f"the transition changed the history of the state it started from: "
+                   f"{[h.name for h in old_hist_before]} -> {[h.name for h in old.history()]}", **w)])
+    exp_hist = list(old_hist_before if old_hist_before is not None else old.history()) + [new.state_id()]
     if new.state_id().name not in GRAPH[old.state_id().name]:
         R.add([K.V("transition:undeclared", f"transition from {old.state_id()} reached {new.state_id()}", **w)])
     if list(new.history()) != exp_hist:
@@ -141,15 +144,25 @@ def _sm(R, rng, ctx):
     dm = ui.DesignManager(name="vf")
     if list(dm.history()) != [StateId.Start] or dm.state_id() != StateId.Start:
         R.add([K.V("transition:initial", f"initial state {dm.state_id()} history {dm.history()}")])
+    h0 = list(dm.history())
     sms = dm.symbolic_model(**args["symbolic_model"]())
-    _check_transition(R, dm, sms, {"step": "symbolic_model"})
+    _check_transition(R, dm, sms, {"step": "symbolic_model"}, h0)
+    # a refused fit (too few samples) must leave the state it was attempted from untouched
+    h_sms = list(sms.history())
+    try:
+        sms.fit_model(parameter_space=space_for(b, {}), data=X[:2].copy())
+    except Exception:  # noqa: BLE001
+        pass
+    if list(sms.history()) != h_sms:
+        R.add([K.V("transition:mutates-previous-state", f"a refused fit_model changed the symbolic state's history to {[h.name for h in sms.history()]}")])
+    h1 = list(sms.history())
     try:
         fms = sms.fit_model(**args["fit_model"]())
     except Exception as e:  # noqa: BLE001
         R.stats.inc("sm_fit_failed_" + type(e).__name__)
         R.inconclusive += 1
         return
-    _check_transition(R, sms, fms, {"step": "fit_model"})
+    _check_transition(R, sms, fms, {"step": "fit_model"}, h1)
     inst = {"Start": dm, "Symbolic_Model": sms, "Fit_Model": fms}
     decl = {"Start": ["symbolic_model"], "Symbolic_Model": ["fit_model"], "Fit_Model": []}
     for nme, st in inst.items():
@@ -182,8 +195,9 @@ def _sm(R, rng, ctx):
                     if name not in cur.available_transitions():
                         R.add([K.V("search:path-not-followable", f"path {got}: {name} not available in {cur.state_id()}", **w)])
                         break
+                    hb = list(cur.history())
                     nxt = getattr(cur, name)(**args[name]())
-                    _check_transition(R, cur, nxt, w)
+                    _check_transition(R, cur, nxt, w, hb)
                     cur = nxt
                 else:
                     R.stats.inc("paths_executed")
